@@ -7,6 +7,11 @@ spec -> code : TLC explores NormGen (properly nested histories whose only defect
                pyx12.scripts.x12norm.main() under every option combination (eol, fix counting; stdout, -o, in place).
 code -> spec : every run (output segments, layout, second pass, destinations), plus histories with other defects and the
                repository fixtures, is validated by TLC against T_Norm / Norm!NormDef.
+real size    : emitted histories (and a complete well-formed interchange) are inflated with filler values and runs of short
+               segments so that the file is longer than the reader's first read (106 + 8192 characters) and the next
+               ones; sweeping the filler length moves a segment terminator, a CR and a LF over every read boundary
+               (8298 + 8192 k); every such file is normalised under all four option combinations and every destination
+               and judged by the same T_Norm clauses.
 """
 import contextlib
 import io
@@ -25,6 +30,96 @@ sys.path.insert(0, vlib.REPO)
 import pyx12.scripts.x12norm as x12norm
 
 TRIPLES = [('~', '*', ':'), ('+', '&', '!'), ('|', '^', '\\')]
+EOLS = ['', '\n', '\r\n']
+FIRST_READ = 106 + 8192      # RawX12File: the ISA, then reads of DEFAULT_BUFSIZE characters
+BUFSIZE = 8192
+RUN = 16                     # short segments laid over a read boundary
+SWEEP = 16                   # filler lengths tried: more than the longest short segment (14 characters + CR LF)
+
+
+def seg(k, id='', cnt='', n='', p=''):
+    return {'k': k, 'id': id, 'cnt': cnt, 'n': n, 'p': p}
+
+
+def concretise(hist, triple, eol=''):
+    """c04.concretise, plus: a body segment with a non-empty id carries that id as its value (Norm!ConcreteEls)"""
+    st, et, ct = triple
+    return ''.join((et.join(['REF', 'EA', s['id']]) + st + eol) if (s['k'] == 'B' and s['id']) else c04.concretise([s], triple, eol) for s in hist)
+
+
+def shape(h):
+    """c04.shape with filler values not written out and long histories cut in the middle"""
+    hh = [dict(s, id='filler') if (s['k'] == 'B' and s['id']) else s for s in h]
+    if len(hh) > 24:
+        return c04.shape(hh[:10]) + ' ..%d more.. ' % (len(hh) - 16) + c04.shape(hh[-6:])
+    return c04.shape(hh)
+
+
+def inflate(h, j1, j2, pad, nbound, triple, eol_in):
+    """h with filler + a run of short segments inserted after segment j1 (laid over the first read boundary) and after segment
+    j2 >= j1 (the next boundaries); the first filler is `pad` characters longer than that needs, so everything behind it
+    is `pad` characters further on"""
+    def short_run(base):
+        return [seg('HL', n=str(base + i // 3 + 1)) if i % 3 == 0 else seg('B') for i in range(RUN)]
+    out = list(h[:j1])
+    rest = [h[j1:j2], h[j2:]] + [[]] * nbound
+    for b in range(nbound):
+        target = FIRST_READ + b * BUFSIZE - 8 * (10 + len(eol_in)) + pad + 5 * b    # boundary in the middle of the run
+        here = len(concretise(out, triple, eol_in)) + len('REF*EA*') + 1 + len(eol_in)
+        out.append(seg('B', id='P' * max(1, target - here)))
+        out += short_run(b * 6)
+        out += rest[b]
+    for r in rest[nbound:]:
+        out += r
+    return out
+
+
+def well_formed(variant, nbound):
+    """a complete interchange of two transaction sets, counts and HL numbers written for the history inflated (by `inflate`
+    after segment 3, both insertions) - variant 0: all right, -f must change nothing; 1 and 2: wrong ones, to be repaired"""
+    nh = 6 * nbound                          # HL segments of the inserted runs
+    body1 = [seg('HL', n=str(nh + 1)), seg('B'), seg('HL', n=str(nh + 2), p=str(nh + 1)), seg('CLM'), seg('B')]
+    body2 = [seg('HL', n='1' if variant != 1 else '4'), seg('B')]
+    se1 = len(body1) + 2 + nbound * (RUN + 1) + (3 if variant == 1 else 0)
+    return ([seg('ISA', '1'), seg('GS', '1'), seg('ST', '1')] + body1 + [seg('SE', '1', str(se1))]
+            + [seg('ST', '2')] + body2 + [seg('SE', '2', str(len(body2) + 2)), seg('GE', '1', '2' if variant != 2 else '7'),
+                                          seg('IEA', '1', '1' if variant != 2 else '3')])
+
+
+def big_cases(tier, pool, rnd):
+    """(history, delimiters, input line breaks) of the real-size inputs"""
+    q = tier == 'quick'
+    nbound = 2 if q else 3
+    cases = []
+    for ei, eol_in in enumerate(EOLS):
+        for pad in range(SWEEP if q else 2 * SWEEP):
+            for ti, triple in enumerate(TRIPLES):
+                if q and (pad + ei) % 3 != ti:
+                    continue                  # quick: every (line break, alignment) once, the delimiters rotating
+                k = len(cases)
+                if k % 3 == 0 or not pool:
+                    h, j1, j2 = well_formed((k // 3) % 3, nbound), 3, 3
+                else:
+                    h = pool[k % len(pool)]
+                    j1 = rnd.randint(1, len(h))
+                    j2 = rnd.randint(j1, len(h))
+                cases.append((inflate(h, j1, j2, pad, nbound, triple, eol_in), triple, eol_in))
+    return cases
+
+
+def _big_batch(args):
+    base, cases = args
+    d = vlib.scratch('c20big')
+    out = []
+    try:
+        for j, (h, triple, eol_in) in enumerate(cases):
+            for c, (fix, eol) in enumerate([(False, False), (True, False), (False, True), (True, True)]):
+                tr = one_trace((base + j) * 4 + c, h, fix, eol, triple, eol_in, d)
+                tr['big'] = True
+                out.append(tr)
+    finally:
+        shutil.rmtree(d, ignore_errors=True)
+    return out
 
 
 def run_norm(argv):
@@ -69,7 +164,7 @@ def parse_out(text, header, triple):
 
 
 def one_trace(tid, hist, fix, eol, triple, eol_in, d, other=None):
-    text = c04.concretise(hist, triple, eol_in)
+    text = concretise(hist, triple, eol_in)
     header = text[:106]
     fin = os.path.join(d, 'in%d.x12' % tid)
     with open(fin, 'w', encoding='ascii', newline='') as f:
@@ -102,7 +197,7 @@ def one_trace(tid, hist, fix, eol, triple, eol_in, d, other=None):
     if other is not None:
         flong = os.path.join(d, 'long%d.x12' % tid)
         with open(flong, 'w', encoding='ascii', newline='') as f:
-            f.write(c04.concretise(other, triple, eol_in))
+            f.write(concretise(other, triple, eol_in))
         outl, excl = run_norm(opts + [flong])
         both, excb = run_norm(opts + [flong, fin])
         c1 = os.path.join(d, 'm1_%d.x12' % tid)
@@ -169,10 +264,10 @@ def _validate_batch(traces):
         shutil.rmtree(d, ignore_errors=True)
 
 
-def validate(chk, traces, label):
+def validate(chk, traces, label, chunk=None):
     if not traces:
         return
-    results = vlib.parallel_map(_validate_batch, list(vlib.chunked(traces, max(100, min(3000, len(traces) // vlib.NCPU + 1)))))
+    results = vlib.parallel_map(_validate_batch, list(vlib.chunked(traces, chunk or max(100, min(3000, len(traces) // vlib.NCPU + 1)))))
     byid = {t['id']: t for t in traces}
     tot = vlib.TlcResult()
     for r in results:
@@ -188,19 +283,22 @@ def validate(chk, traces, label):
                 sig.update({k: v for k, v in tr.get('multi_detail', {}).items()})
             if clause in ('values', 'segment_count'):
                 sig['fix'] = tr['fix']
-                sig['history'] = c04.shape(tr['hist'])
+                sig['history'] = shape(tr['hist'])
+            if tr.get('big'):
+                sig['real_size'] = True
+                sig['eol_in'] = tr['eol_in']
             chk.violation(sig, 'x12norm %s%son [%s] (delimiters %r, input line breaks %r): clause %s; output segments %s'
-                          % ('-e ' if tr['eol'] else '', '-f ' if tr['fix'] else '', c04.shape(tr['hist']), ''.join(tr['triple']), tr['eol_in'], clause,
-                             [''.join('*' + e for e in o['els'])[1:] for o in tr['out']][:12]),
+                          % ('-e ' if tr['eol'] else '', '-f ' if tr['fix'] else '', shape(tr['hist']), ''.join(tr['triple']), tr['eol_in'], clause,
+                             [(''.join('*' + e for e in o['els'])[1:])[:40 if tr.get('big') else None] for o in tr['out']][:12]),
                           {'kind': 'norm', 'history': tr['hist'], 'fix': tr['fix'], 'eol': tr['eol'], 'triple': tr['triple'], 'eol_in': tr['eol_in'], 'clause': clause})
     chk.add_tlc(tot, 'T_Norm ' + label)
     chk.add_traces(len(traces))
     chk.add_eval(len(traces) * 4)
     for t in traces:
-        chk.note_distinct('%s|%s|%s|%s|%s' % (c04.shape(t['hist']), t['fix'], t['eol'], t['triple'], t['eol_in']))
+        chk.note_distinct('%s|%s|%s|%s|%s' % (shape(t['hist']), t['fix'], t['eol'], t['triple'], t['eol_in']))
     t = traces[len(traces) // 2]
-    chk.sample({'source': label, 'input': c04.shape(t['hist']), 'options': {'eol': t['eol'], 'fixcounting': t['fix']}, 'delimiters': ''.join(t['triple']),
-                'output_segments': ['*'.join(o['els']) for o in t['out']][:10]})
+    chk.sample({'source': label, 'input': shape(t['hist']), 'options': {'eol': t['eol'], 'fixcounting': t['fix']}, 'delimiters': ''.join(t['triple']),
+                'output_segments': ['*'.join(o['els'])[:80] for o in t['out']][:10]})
 
 
 def fixture_hists():
@@ -216,18 +314,19 @@ def run(tier, replay=None):
             tr = one_trace(0, obj['history'], obj['fix'], obj['eol'], tuple(obj['triple']), obj['eol_in'], d)
         finally:
             shutil.rmtree(d, ignore_errors=True)
-        print('input   :', c04.shape(obj['history']), 'options', {'fix': obj['fix'], 'eol': obj['eol']})
-        print('output  :', ['*'.join(o['els']) for o in tr['out']], 'tail', tr['tail'], 'second_same', tr['second_same'], 'dest', tr.get('dest_detail'), 'exc', tr['exc'])
+        print('input   :', shape(obj['history']), 'options', {'fix': obj['fix'], 'eol': obj['eol']})
+        print('output  :', [(o['lead'], '*'.join(o['els'])[:60]) for o in tr['out']], 'tail', tr['tail'], 'second_same', tr['second_same'], 'dest', tr.get('dest_detail'), 'exc', tr['exc'])
         print('recorded clause:', obj.get('clause'))
         return 0
     chk = Check('C20', tier)
-    chk.rule = 'one case per (input history, option combination, delimiter triple, input line-break convention); each case runs stdout, -o and in-place destinations and a second pass'
+    chk.rule = 'one case per (input history, option combination, delimiter triple, input line-break convention); each case runs stdout, -o and in-place destinations and a second pass; real-size cases: one per (inflated history, filler length, line-break convention), all four option combinations'
     q = tier == 'quick'
     tid = 0
     plans = [('all-kinds', 6 if q else 7, ['ISA', 'GS', 'ST', 'SE', 'GE', 'IEA', 'HL', 'B']),
              ('envelope-deep', 8 if q else 10, ['ISA', 'GS', 'ST', 'SE', 'GE', 'IEA']),
              ('hl-deep', 7 if q else 9, ['GS', 'ST', 'SE', 'HL'])]
     rnd = random.Random(vlib.seed() + 20)
+    pool = []
     for label, maxlen, kinds in plans:
         cfg = ('SPECIFICATION Spec\nCONSTANTS MaxLen = %d\n Kinds = {%s}\n Ids = {"1","2"}\n EmitAll = TRUE\n'
                'INVARIANT ImplIsDef\nINVARIANT Repaired\nINVARIANT NothingElse\nINVARIANT Idempotent\nINVARIANT Emit\n'
@@ -247,9 +346,17 @@ def run(tier, replay=None):
         traces = [t for r in vlib.parallel_map(_batch, [(tid + i, b) for i, b in zip(range(0, len(hists), 400), vlib.chunked(hists, 400))]) for t in r]
         tid += len(hists)
         validate(chk, traces, label)
+        pool += rnd.sample(hists, min(len(hists), 20))
+    # real-size inputs: read boundaries of RawX12File swept by a terminator / CR / LF
+    cases = big_cases(tier, pool, rnd)
+    per = max(1, len(cases) // vlib.NCPU + 1)
+    traces = [t for r in vlib.parallel_map(_big_batch, [(tid + i, b) for i, b in zip(range(0, len(cases), per), vlib.chunked(cases, per))]) for t in r]
+    validate(chk, traces, 'real-size', chunk=max(48, len(traces) // vlib.NCPU + 1))
     chk.assumptions = ['count fixing is only specified (and checked) for properly nested inputs whose only defects are IEA/GE/SE counts or HL sequence numbers',
                        'segment values of the generated inputs are fixed representative values; delimiters from 3 triples; input line breaks none/LF/CRLF',
-                       'inputs are given by file path (the only form the script accepts)']
+                       'inputs are given by file path (the only form the script accepts)',
+                       'real-size inputs: %d read boundaries (8298 + 8192 k) crossed, filler length swept over %d values; longer files are not run'
+                       % (2 if q else 3, SWEEP if q else 2 * SWEEP)]
     return chk.finish()
 
 
